@@ -197,6 +197,12 @@ class OpWorld(World):
         r = super().call_callback(it, o, args, kwargs)
         kind = o.attrs.get("returns")
         if kind == "source":
+            h = self.harness
+            if h is not None and getattr(self, "side", "impl") == "impl" and hasattr(h, "elements_may_be_futures") and h.elements_may_be_futures(it) \
+                    and it.ctx.choose(2, f"{o.name} hands back an observable / a future"):
+                # the operator asks `is_future`: what the user's function hands back may be a future, `from_future` of it is the sequence
+                it.ctx.assume(r.t != smt.NONE)
+                return Opaque("future", it.ctx.fresh_name("future"), term=r.t)
             return self.deref(it, "source", r.t)  # the callback hands back an observable (a duration, a boundary, ...)
         if kind == "subject":
             it.ctx.assume(z3.And(r.t != smt.NONE, r.t != ABSENT, IS_SUBJ(r.t)))
@@ -600,6 +606,17 @@ class OpWorld(World):
                 self.struct["impl"].append(("sub-src", list(self.harness.c.sources).index(o.name), True))
             if "term" in o.attrs:
                 self.struct["impl"].append(("sub", o.attrs["term"]))
+                h_ = self.harness
+                if (h_ is not None and getattr(h_, "in_handler", False) and getattr(self, "side", "impl") == "impl" and not getattr(h_.c, "families", None)
+                        and not getattr(h_.c, "timers", None)):
+                    # no handler family is declared for sequences this operator subscribes to on the way (catch's continuation, ...): what the
+                    # contract says about them is "the subscriber gets them as they are" - so the subscriber itself must be what is handed over;
+                    # handlers of the operator's own, or a stage in between, would run unverified
+                    direct = all(isinstance(x, OpaqueMethod) and isinstance(x.obj, Opaque) and x.obj.kind == "observer" and x.obj.name == "observer"
+                                 and x.name == n_ for x, n_ in zip(hs, ("on_next", "on_error", "on_completed")))
+                    if not direct:
+                        h_.fail(it.ctx, f"{h_.step_uid}/a-sequence-subscribed-on-the-way-is-handed-the-subscriber-itself",
+                                f"{o.name} is subscribed with {hs!r}: not the downstream observer itself, and the contract declares no handler family for it")
                 if self.harness is not None and getattr(self.harness, "in_handler", False):
                     self.snaps["impl"].append(self.harness.capture_impl())
                 si = getattr(self.harness, "sync_inner", None) if self.harness is not None else None
